@@ -49,7 +49,7 @@ def impl(c):
     d = common.build_impl_divisor(G, c["D"], rng=rng); g = d.graph; L = CFLaplacian(g)
     out = {"M": [[L.get_matrix_entry(a, b) for b in names] for a in names]}
     red = L.get_reduced_matrix(Vertex(names[c["q"]])); rest = [x for i, x in enumerate(names) if i != c["q"]]
-    out["R"] = [[red[Vertex(a)][Vertex(b)] for b in rest] for a in rest]; out["Rkeys"] = sorted(v.name for v in red) == sorted(rest)
+    out["R"] = [[red[Vertex(a)][Vertex(b)] for b in rest] for a in rest]; out["Rkeys"] = sorted(v.name for v in red) == sorted(rest) and all(sorted(w.name for w in red[Vertex(a)]) == sorted(rest) for a in rest)     # no row AND no column for q (C06_source_reduced_matrix)
     sc = CFiringScript(g, {names[i]: x for i, x in enumerate(c["s"]) if x != 0 or rng.random() < 0.3})
     sres = []
     for o in c["sops"]:
